@@ -5,6 +5,7 @@ PROP = dict(
     trusted_base=[
         "hand-written Gallina model coq/Node/Crash.v + coq/Node/Stages.v of the database traffic of pkg/core/blockchain.go, headerhashes.go, dao.go (tied by correspondence: recorded batch structure and the outcome of re-opening every batch prefix)",
         "the harness' recording storage.Store wrapper and its abstraction of concrete keys to record classes (harness/c02*.go)",
+        "slow-store mode (harness/c02gate.go): the recording store lets a write through only when every goroutine running node code is parked or waiting at the store (read off runtime.Stack), and takes both orders where two writes wait together",
         "hook commits in /repo: pkg/core/verif_hooks.go (VerifPersist, VerifPersistGC), pkg/core/verif_hooks_c02.go (VerifSetPersistInterval)",
     ],
     assumptions=[
@@ -16,6 +17,6 @@ PROP = dict(
     modelled="block persistence, start-up, the full collector (historic trie nodes, transfer batches, untraceable block records, header-hash pages), Reset and state-jump stage machines and the atomic restoration of a synchronised trie node are modelled and proved; the rest of the synchronisation traffic before the jump (header and block fetching) is exercised by the harness at every batch boundary but not modelled",
 )
 META = dict(
-    text="Proved in Coq for all operation sequences and all crash points k: every batch boundary leaves either an empty database or exactly a node at some height h not above the last accepted block (everything a block writes travels with the tip pointer), re-opening never fails, the recovered node holds the history's state and every later root is the history's root; GC batches preserve this; Reset and state jump as stage machines: with the repairs F20-F22 every interruption is resumed to the same database, for the code as it stands the three failing crash windows are exhibited as refuted statements and the rest proved under the guard. Tied to the Go code by exhaustive crash-point enumeration on real Blockchain instances over memory/LevelDB/BoltDB. The full collector (untraceable block records through the write cache, header-hash pages by their own commit) keeps every boundary recoverable (repaired page bound; the pinned bound is refuted, F48); after Reset(h) the database equals, key by key, that of a node that only synchronised to h except the trie nodes of the removed blocks; a synchronised trie node restored as one batch is complete at every boundary (written Put by Put it is not: H1 = F49). Contract-storage-based synchronisation (item batches with checkpoints) resumes from every boundary to the same database when batch and checkpoint are persisted together (refuted for the late-checkpoint variant). Partial: header and block fetching before the jump is exercised at every boundary but not modelled.",
+    text="Proved in Coq for all operation sequences and all crash points k: every batch boundary leaves either an empty database or exactly a node at some height h not above the last accepted block (everything a block writes travels with the tip pointer), re-opening never fails, the recovered node holds the history's state and every later root is the history's root; GC batches preserve this; Reset and state jump as stage machines: with the repairs F20-F22 every interruption is resumed to the same database, for the code as it stands the three failing crash windows are exhibited as refuted statements and the rest proved under the guard. Tied to the Go code by exhaustive crash-point enumeration on real Blockchain instances over memory/LevelDB/BoltDB. The full collector (untraceable block records through the write cache, header-hash pages by their own commit) keeps every boundary recoverable (repaired page bound; the pinned bound is refuted, F48); after Reset(h) the database equals, key by key, that of a node that only synchronised to h except the trie nodes of the removed blocks; a synchronised trie node restored as one batch is complete at every boundary (written Put by Put it is not: H1 = F49). Contract-storage-based synchronisation (item batches with checkpoints) resumes from every boundary to the same database when batch and checkpoint are persisted together (refuted for the late-checkpoint variant). Reset's two writers (stage batches persisted by a helper goroutine, the old contract storage collected directly on the store): for every order the unbuffered hand-over admits and every boundary, the reset marker is on disk or the database is the pre-reset one, and start-up resumes to the same database (refuted for the variant where the direct operation can overtake the marker batch); checked on the real code with a gated (slow) store, all orders, every prefix. Partial: header and block fetching before the jump is exercised at every boundary but not modelled.",
     note="Trusted: Coq kernel and vm_compute, the Go harness (recording store, key abstraction), orchestration. Assumed: backend batch atomicity, determinism of block execution, trie read-back (C03), GC soundness (C11).",
 )
